@@ -120,24 +120,35 @@ PileRowsOK(opts, own, avail, r) ==
 
 (* ------------------------------ Padding / Filler / one axis of Overlay ------------------ *)
 (* c: [avail, align (0..100), kind "given"|"pack"|"relative"|"clip", amt (columns or percentage),        *)
-(*     own (what a packed / fixed child reports), min (-1: none), L, R (fixed margins),                   *)
+(*     own (what a packed / fixed child reported when the decoration asked it), min (-1: none),           *)
+(*     nat (the natural extent of a packed / fixed child: what it asks for when nothing restricts it;     *)
+(*          this - not the answer to whatever the decoration chose to offer - is its requested size),    *)
+(*     flex (TRUE for a packed child that takes less when it is offered less, like a text: it CAN be      *)
+(*          given "the remaining space"; FALSE for a child whose extent is its own: the rows of a flow    *)
+(*          widget under a Filler, a fixed widget),                                                       *)
+(*     L, R (fixed margins),                                                                              *)
 (*     clip (TRUE when the decoration can clip: negative margins are clipped child cells)]               *)
 (* result: l, r (margins), child (extent of the child along the axis)                                     *)
 PadBase(c) == Max2(0, c.avail - c.L - c.R)
 \* sizes that count as "the requested size"
 PadRequested(c) ==
   CASE c.kind = "given" -> {c.amt}
-    [] c.kind = "clip" -> {c.own}
-    [] c.kind = "pack" -> {c.own, Max2(c.own, c.min)}          \* a minimum may or may not apply to a packed child
+    [] c.kind = "clip" -> {c.nat}
+    [] c.kind = "pack" -> {c.nat, Max2(c.nat, c.min)}          \* a minimum may or may not apply to a packed child
     [] c.kind = "relative" ->                                  \* the percentage of what the margins leave, rounded either way
          {Max2(q, c.min) : q \in {q \in 0..(2 * PadBase(c) + 2) : Abs(q * 100 - PadBase(c) * c.amt) < 100}}
     [] OTHER -> {}
 PadFits(c, size) == size + c.L + c.R <= c.avail
 \* "give their child the requested size when it fits beside the fixed margins and the remaining space otherwise":
 \* weak reading of "the remaining space": at least what the margins leave, never more than asked or available
+\* ... except for a packed child that shrinks (flex): there nothing forces the decoration to give up its fixed margins,
+\* "the remaining space" is what the margins leave (lifted to the minimum size when one is set), never more than asked
+\* or available -- packing the child against the whole width and letting it eat the margins is not "the remaining space"
+PadRemaining(c, req) == {PadBase(c), Min2(c.avail, Min2(req, Max2(PadBase(c), c.min)))}
 PadChildOK(c, child) ==
   \E req \in PadRequested(c) :
     IF PadFits(c, req) \/ c.clip THEN child = req
+    ELSE IF c.flex THEN child \in PadRemaining(c, req)
     ELSE child >= PadBase(c) /\ child <= Min2(req, c.avail)
 StrongPadChildOK(c, child) ==                                   \* literal reading: exactly what the margins leave
   \E req \in PadRequested(c) : child = IF PadFits(c, req) \/ c.clip THEN req ELSE PadBase(c)
@@ -215,7 +226,7 @@ RefPile(opts, own, avail) ==
 RefPadReq(c) ==
   CASE c.kind = "given" -> c.amt
     [] c.kind = "relative" -> Max2((PadBase(c) * c.amt + 50) \div 100, c.min)
-    [] OTHER -> c.own
+    [] OTHER -> c.nat
 RefPad(c) ==       \* <<l, r, child>>
   LET req == RefPadReq(c) IN
   IF PadFits(c, req)
@@ -224,7 +235,7 @@ RefPad(c) ==       \* <<l, r, child>>
        IN <<c.L + el, c.avail - req - c.L - el, req>>
   ELSE IF c.clip
   THEN LET l == Min2(c.L, Max2(0, c.avail - req)) IN <<l, c.avail - req - l, req>>
-  ELSE LET child == Min2(req, c.avail)
+  ELSE LET child == IF c.flex THEN Min2(c.avail, Min2(req, Max2(PadBase(c), c.min))) ELSE Min2(req, c.avail)
            l == Min2(c.L, c.avail - child)
        IN <<l, c.avail - child - l, child>>
 
@@ -255,4 +266,10 @@ WrongPadMirror(c) == LET p == RefPad([c EXCEPT !.align = 100 - c.align]) IN p
 WrongPadNoMargins(c) == LET p == RefPad([c EXCEPT !.L = 0, !.R = 0]) IN p
 \* minimum size ignored
 WrongPadNoMin(c) == RefPad([c EXCEPT !.min = -1])
+\* a shrinking packed child is packed against the whole width: the fixed margins are only taken off afterwards, so a child
+\* that does not fit beside them is handed more than the remaining space and the margins are eaten
+WrongPadPackWhole(c) ==
+  IF c.kind = "pack" /\ c.flex
+  THEN RefPad([c EXCEPT !.kind = "given", !.amt = Min2(c.nat, Max2(c.avail, c.min)), !.flex = FALSE])
+  ELSE RefPad(c)
 ================================================================================
